@@ -217,8 +217,8 @@ Proof. vm_compute. split; reflexivity. Qed.
 
 (* schemas: creator 0 supplies {x: long}, creator 1 supplies {x: long, y: string}; 0 wins the race above, so a
    schema-less append uses {x: long}; a table created without a schema (or with an empty one) has none *)
-Definition fx : field := {| fid := 1%Z; fname := 1%Z; ftype := T_long; fspell := 0%Z; freq := false |}.
-Definition fy : field := {| fid := 2%Z; fname := 2%Z; ftype := T_string; fspell := 0%Z; freq := false |}.
+Definition fx : field := {| fid := 1%Z; fname := 1%Z; ftype := CPrim T_long; fspell := 0%Z; freq := false |}.
+Definition fy : field := {| fid := 2%Z; fname := 2%Z; ftype := CPrim T_string; fspell := 0%Z; freq := false |}.
 Definition sA : ischema := {| sid := 1%Z; sfields := [fx]; sstring := 0%Z |}.
 Definition sB : ischema := {| sid := 1%Z; sfields := [fx; fy]; sstring := 0%Z |}.
 Example C18_nonvacuous_schema :
